@@ -207,3 +207,81 @@ Section ExpandExpected.
       cbn [vals]. eexists. split; [reflexivity|]. now rewrite rev_length.
   Qed.
 End ExpandExpected.
+
+(* ---- nJ, nI, xM with an expected count ---- *)
+Section ExpandExpected2.
+  Variable V : Type.
+  Variable rd : string -> option V.
+  Variable lin : V -> V -> nat -> list V.
+  Variable mul : V -> V -> V.
+
+  Notation run := (run V rd lin mul).
+
+  Lemma forall2_len {A B} (R : A -> B -> Prop) l l' : Forall2 R l l' -> List.length l = List.length l'.
+  Proof. induction 1; cbn; congruence. Qed.
+
+  Lemma run_plains_list_e e xs vs : Forall2 (plain V rd) xs vs -> forall acc k ts,
+    List.length acc + List.length xs <= e ->
+    run (Some e) acc k (xs ++ ts)%list
+    = run (Some e) (rev (map Some vs) ++ acc)%list (List.length xs + k) ts.
+  Proof.
+    induction 1 as [|x v xs vs [Hk Hr] _ IH]; intros acc k ts Hle; [reflexivity|].
+    cbn [app map rev List.length] in *. cbn [Model.run full].
+    assert (F : Nat.leb e (List.length acc) = false) by (apply Nat.leb_gt; lia).
+    rewrite F, Hk, Hr. rewrite (IH (Some v :: acc) (S k) ts) by (cbn [List.length]; lia).
+    rewrite <- app_assoc. cbn [app]. f_equal. lia.
+  Qed.
+
+  Lemma run_jumps_e e n : forall acc k ts,
+    List.length acc + n <= e ->
+    run (Some e) acc k (repeat "j" n ++ ts)%list
+    = run (Some e) (repeat None n ++ acc)%list (n + k) ts.
+  Proof.
+    induction n as [|n IH]; intros acc k ts Hle; [reflexivity|].
+    cbn [repeat app]. cbn [Model.run full].
+    assert (F : Nat.leb e (List.length acc) = false) by (apply Nat.leb_gt; lia).
+    rewrite F. change (kind_of (lower "j")) with (KJump ""). cbn [count_of repeat app].
+    rewrite (IH (None :: acc) (S k) ts) by (cbn [List.length]; lia).
+    f_equal; [|lia].
+    clear. induction n as [|n IH]; [reflexivity|]. cbn [repeat app]. now rewrite IH.
+  Qed.
+
+  Theorem expand_jump_expected e t pre n acc k ts :
+    kind_of (lower t) = KJump pre -> count_of pre = Some n ->
+    List.length acc + n <= e -> n <> 0 ->
+    vals V (run (Some e) acc k (t :: ts))
+    = vals V (run (Some e) acc k (repeat "j" n ++ ts)%list).
+  Proof.
+    intros Hk Hc Hle Hn. rewrite (run_jumps_e e n acc k ts Hle).
+    cbn [Model.run full].
+    assert (F : Nat.leb e (List.length acc) = false) by (apply Nat.leb_gt; lia).
+    rewrite F, Hk, Hc. apply (vals_counter_e V rd lin mul (Some e) (List.length ts)). lia.
+  Qed.
+
+  Theorem expand_interpolate_expected e t pre n lo u hi xs acc k ts :
+    kind_of (lower t) = KInt pre -> count_of pre = Some n -> plain V rd u hi ->
+    Forall2 (plain V rd) xs (lin lo hi n) ->
+    List.length acc + 1 + List.length xs + 1 <= e ->
+    vals V (run (Some e) (Some lo :: acc) k (t :: u :: ts))
+    = vals V (run (Some e) (Some lo :: acc) k (xs ++ u :: ts)%list).
+  Proof.
+    intros Hk Hc Hu Hxs Hle.
+    rewrite (run_plains_list_e e xs _ Hxs) by (cbn [List.length]; lia).
+    assert (F : Nat.leb e (List.length (Some lo :: acc)) = false)
+      by (apply Nat.leb_gt; cbn [List.length]; lia).
+    assert (F2 : Nat.leb e (List.length (rev (map Some (lin lo hi n)) ++ Some lo :: acc)%list) = false).
+    { apply Nat.leb_gt. rewrite app_length, rev_length, map_length.
+      rewrite <- (forall2_len _ _ _ Hxs). cbn [List.length]. lia. }
+    cbn [Model.run full]. rewrite F, F2, Hk. destruct Hu as [Hku Hu]. rewrite Hku, Hu, Hc.
+    apply (vals_counter_e V rd lin mul (Some e) (List.length ts)). lia.
+  Qed.
+
+  (* xM stands for ONE entry: no condition on the count *)
+  Theorem expand_multiply_expected e t c pre f v x acc k ts :
+    kind_of (lower t) = KMul (String c pre) -> rd (String c pre) = Some f -> plain V rd x (mul v f) ->
+    vals V (run (Some e) (Some v :: acc) k (t :: ts)) = vals V (run (Some e) (Some v :: acc) k (x :: ts)).
+  Proof.
+    intros Hk Hf [Hkx Hx]. cbn [Model.run]. destruct (full V (Some e) (Some v :: acc)); [reflexivity|].
+    now rewrite Hk, Hf, Hkx, Hx.
+  Qed.
+End ExpandExpected2.
